@@ -27,9 +27,9 @@ Proof.
              ((cn - 1) * (k * k * a) + (tn - 1) * (k * k * b)) / (cn + tn - 2) / tn)
       with (k * k * (((cn - 1) * a + (tn - 1) * b) / (cn + tn - 2) / cn + ((cn - 1) * a + (tn - 1) * b) / (cn + tn - 2) / tn))
       by (field; lra).
-    rewrite sqrt_mult_alt by nra. rewrite sqrt_square by lra. reflexivity.
+    rewrite Rmax_scale by nra. rewrite sqrt_mult_alt by nra. rewrite sqrt_square by lra. reflexivity.
   - replace (k * k * a / cn + k * k * b / tn) with (k * k * (a / cn + b / tn)) by (field; lra).
-    rewrite sqrt_mult_alt by nra. rewrite sqrt_square by lra. reflexivity.
+    rewrite Rmax_scale by nra. rewrite sqrt_mult_alt by nra. rewrite sqrt_square by lra. reflexivity.
 Qed.
 
 Lemma div_cancel x n d : x <> 0 -> (x * n) / (x * d) = n / d.
@@ -93,7 +93,7 @@ Hypothesis Hpos : 0 < cv + tv.
 Hypothesis Hcl : 0 < cfg_confidence_level cfg < 1.
 
 Lemma se_swap ev : se_of ev tv tn cv cn = se_of ev cv cn tv tn.
-Proof. unfold se_of, pooled_var. destruct ev; f_equal; field; lra. Qed.
+Proof. unfold se_of, pooled_var. destruct ev; f_equal; f_equal; field; lra. Qed.
 Lemma null_swap ev ut : null_of fam ev ut tv tn cv cn = null_of fam ev ut cv cn tv tn.
 Proof.
   unfold null_of. destruct ut; [|reflexivity]. f_equal. unfold df_of. destruct ev; [ring|].
